@@ -39,6 +39,10 @@ type FlowOpts struct {
 	Inbound      int // application messages the broker sends
 	InQ          [3]int
 	StopAt       int // process stop at this many completed storage operations (0: none)
+	ReqMix       [rkKinds]int
+	QuitMix      [4]int
+	FailFilter   int // permille of subscribe filters the broker fails
+	Disk         DiskOpts
 }
 
 type Pub struct {
@@ -51,6 +55,7 @@ type Pub struct {
 	Invoke   int
 	Ret      int
 	RetTime  time.Duration
+	InvTime  time.Duration
 	Err      error
 	Ex       <-chan error
 	ExErrs   []error
@@ -69,6 +74,7 @@ type Pub struct {
 	FirstWire  int // step of first complete PUBLISH on any connection (0 none)
 	WireConns  []int
 	OnlineAtRet bool
+	NetParks    int // network waits of the calling task during the call
 }
 
 func (p *Pub) Accepted() bool { return p.Ret != 0 && p.Err == nil }
@@ -84,17 +90,27 @@ type Flow struct {
 	byID    map[uint16]*Pub
 
 	pubTasksLive int
+	reqTasksLive int
+	Reqs         []*Req
+	reqByMarker  map[string]*Req
+	PingReqWire  []int // steps at which a complete PINGREQ was on the wire
 	QStartStep   int
 	QStartTime   time.Duration
 	FaultSteps   int
 
 	lastOnline   bool
+	sigKnown     bool // the signals could be observed at the last step boundary
+	OnlineSteps  []int
 	OnlineConn   int // connection id of the last Online observation (-1 none)
 	ReaderErrs   []error
+	ReaderErrSteps []int
+	Resumed      [3]int // transfers resumed by AdoptSession in the current incarnation, per level
+	adopted      map[int]bool
 	ReaderClosed bool
 	FatalSetup   error
 
-	Mon []Monitor
+	Mon    []Monitor
+	Refuse func(n int) byte
 }
 
 // Monitor is an oracle plugged into the flow.
@@ -126,6 +142,7 @@ func (f *Flow) OnConn(c *Conn) {
 				}
 			}
 		}
+		f.reqWire(c, p)
 		for _, m := range f.Mon {
 			m.Wire(f, c, p)
 		}
@@ -227,7 +244,14 @@ func drawFlowOpts(t *Tape, thorough bool) FlowOpts {
 	if t.Flip("f-break", 600) {
 		o.BreakW = 1 + t.Draw("breakw", 3)
 	}
+	if t.Flip("f-disk", 400) {
+		o.Disk.ErrBefore = 40
+	}
+	o.Disk.Shuffle = t.Flip("lshuffle", 500)
 	o.Budget = t.Draw("budget", 9)
+	o.ReqMix = [rkKinds]int{3, 1, 2, 1, 1, 2, 2}
+	o.QuitMix = [4]int{4, 2, 1, 2}
+	o.FailFilter = 200
 	return o
 }
 
@@ -285,6 +309,7 @@ func (f *Flow) readerTask(s *Sim) {
 		_ = topic
 		if err != nil {
 			f.ReaderErrs = append(f.ReaderErrs, err)
+			f.ReaderErrSteps = append(f.ReaderErrSteps, f.W.Steps)
 			f.W.Ev("reader", 0, "ReadSlices: %v", err)
 			if errors.Is(err, mqtt.ErrClosed) {
 				f.ReaderClosed = true
@@ -331,10 +356,12 @@ func (f *Flow) pubTask(s *Sim, name string, n int) {
 		f.Pubs = append(f.Pubs, pb)
 		f.byTopic[topic] = pb
 		pb.Invoke = w.Steps
+		pb.InvTime = s.Now()
 		w.Ev("api", pb.Idx, "%s publish q%d %s", name, pb.QoS, topic)
 		var ex <-chan error
 		var err error
 		on, _, known := f.C.VerifSignals()
+		parks0 := s.netParks[name]
 		switch {
 		case pb.QoS == 1 && !pb.Retain:
 			ex, err = f.C.PublishAtLeastOnce(pb.Payload, topic)
@@ -349,6 +376,7 @@ func (f *Flow) pubTask(s *Sim, name string, n int) {
 		pb.Ret = w.Steps
 		pb.RetTime = s.Now()
 		pb.OnlineAtRet = on && known
+		pb.NetParks = s.netParks[name] - parks0
 		w.Ev("api", pb.Idx, "%s publish #%d -> %v", name, pb.Idx, err)
 		if err != nil && !errors.Is(err, mqtt.ErrMax) && !errors.Is(err, ErrDiskInjected) && !errors.Is(err, mqtt.ErrClosed) {
 			w.Violate("C14", "publish-error-class", "persisted", "persisted publish returned %v", err)
@@ -429,6 +457,7 @@ func (f *Flow) stepHook() {
 	f.pollExchanges()
 	if f.C != nil {
 		on, off, known := f.C.VerifSignals()
+		f.sigKnown = known
 		if known {
 			if on && off {
 				w.Violate("C12", "signals", "both-released", "Online and Offline both released")
@@ -436,6 +465,7 @@ func (f *Flow) stepHook() {
 			if on && !f.lastOnline {
 				if c := s.Cur(); c != nil {
 					f.OnlineConn = c.id
+					f.OnlineSteps = append(f.OnlineSteps, w.Steps)
 					w.Ev("online", c.id, "Online observed on conn%d", c.id)
 					for _, m := range f.Mon {
 						m.Online(f, c)
@@ -448,7 +478,7 @@ func (f *Flow) stepHook() {
 	for _, m := range f.Mon {
 		m.Step(f)
 	}
-	if f.pubTasksLive == 0 && f.QStartStep == 0 && f.quiesceReady() {
+	if f.pubTasksLive == 0 && f.reqTasksLive == 0 && f.QStartStep == 0 && f.quiesceReady() {
 		f.QStartStep = w.Steps
 		f.QStartTime = s.Now()
 		f.FaultSteps = w.Steps
@@ -482,11 +512,20 @@ func (f *Flow) env() []Action {
 			c.Break(kind)
 		}})
 	}
+	acts = append(acts, f.quitActions()...)
 	return acts
 }
 
+// AdoptedGen is whether the incarnation came from AdoptSession.
+func (f *Flow) AdoptedGen(gen int) bool { return f.adopted[gen] }
+
 // goalReached: every accepted publish is done in every respect.
 func (f *Flow) goalReached() bool {
+	for _, r := range f.Reqs {
+		if r.Invoke != 0 && r.Ret == 0 {
+			return false
+		}
+	}
 	for _, pb := range f.Pubs {
 		if pb.Ret == 0 {
 			return false
@@ -567,4 +606,170 @@ func shortErr(err error) string {
 		s = s[:80]
 	}
 	return s
+}
+
+// ---- requests other than persisted publishes ----
+
+const (
+	rkPublish = iota // at-most-once
+	rkPublishRetained
+	rkSubscribe
+	rkSubscribeAtMostOnce
+	rkSubscribeAtLeastOnce
+	rkUnsubscribe
+	rkPing
+	rkKinds
+)
+
+var rkNames = [...]string{"Publish", "PublishRetained", "Subscribe", "SubscribeLimitAtMostOnce", "SubscribeLimitAtLeastOnce", "Unsubscribe", "Ping"}
+
+const (
+	quitNil = iota
+	quitOpen
+	quitClosed // closed before the call
+	quitLater  // closed by the environment at some later step
+)
+
+type Req struct {
+	Idx     int
+	Task    string
+	Kind    int
+	Topic   string   // publish
+	Payload []byte   // publish
+	Filters []string // (un)subscribe
+	QuitK   int
+	Quit    chan struct{}
+	QuitAt  int // step at which quit was closed (0: not)
+	Invoke  int
+	Ret     int
+	RetTime time.Duration
+	InvTime time.Duration
+	Err     error
+	// wire
+	ID        uint16
+	WireStep  int // step of the complete request packet (0: never complete)
+	WireConn  int
+	Panic     string
+	OnlineInv bool
+}
+
+func (r *Req) Returned() bool { return r.Ret != 0 }
+
+func (f *Flow) reqTask(s *Sim, name string, n int) {
+	w := f.W
+	defer func() { f.reqTasksLive-- }()
+	for i := 0; i < n; i++ {
+		s.Pause("req")
+		if s.dead {
+			return
+		}
+		r := &Req{Idx: len(f.Reqs), Task: name, WireConn: -1}
+		r.Kind = w.Tape.Pick("rkind", f.O.ReqMix[:])
+		marker := fmt.Sprintf("r/%s/%d/g%d", name, i, w.Gen)
+		switch r.Kind {
+		case rkPublish, rkPublishRetained:
+			r.Topic = marker
+			r.Payload = payloadFor(w.Tape, marker, f.O.BigPayload, false)
+		case rkSubscribe, rkSubscribeAtMostOnce, rkSubscribeAtLeastOnce, rkUnsubscribe:
+			nf := 1 + w.Tape.Draw("nfilt", 3)
+			for k := 0; k < nf; k++ {
+				flt := fmt.Sprintf("%s/%d", marker, k)
+				if r.Kind != rkUnsubscribe && w.Tape.Flip("failfilt", f.O.FailFilter) {
+					flt += "/fail"
+				}
+				r.Filters = append(r.Filters, flt)
+			}
+		}
+		r.QuitK = w.Tape.Pick("quitk", f.O.QuitMix[:])
+		switch r.QuitK {
+		case quitOpen, quitLater:
+			r.Quit = make(chan struct{})
+		case quitClosed:
+			r.Quit = make(chan struct{})
+			close(r.Quit)
+			r.QuitAt = w.Steps
+		}
+		f.Reqs = append(f.Reqs, r)
+		for _, flt := range r.Filters {
+			f.reqByMarker[flt] = r
+		}
+		if r.Topic != "" {
+			f.reqByMarker[r.Topic] = r
+		}
+		r.Invoke = w.Steps
+		r.InvTime = s.Now()
+		on, _, known := f.C.VerifSignals()
+		r.OnlineInv = on && known
+		w.Ev("api", r.Idx, "%s %s #%d quit=%d", name, rkNames[r.Kind], r.Idx, r.QuitK)
+		func() {
+			defer func() {
+				if p := recover(); p != nil {
+					r.Panic = fmt.Sprint(p)
+					w.Violate("C13", "no-panic", "api-"+rkNames[r.Kind], "%s panicked: %v", rkNames[r.Kind], p)
+				}
+			}()
+			var quit <-chan struct{}
+			if r.Quit != nil {
+				quit = r.Quit
+			}
+			switch r.Kind {
+			case rkPublish:
+				r.Err = f.C.Publish(quit, r.Payload, r.Topic)
+			case rkPublishRetained:
+				r.Err = f.C.PublishRetained(quit, r.Payload, r.Topic)
+			case rkSubscribe:
+				r.Err = f.C.Subscribe(quit, r.Filters...)
+			case rkSubscribeAtMostOnce:
+				r.Err = f.C.SubscribeLimitAtMostOnce(quit, r.Filters...)
+			case rkSubscribeAtLeastOnce:
+				r.Err = f.C.SubscribeLimitAtLeastOnce(quit, r.Filters...)
+			case rkUnsubscribe:
+				r.Err = f.C.Unsubscribe(quit, r.Filters...)
+			case rkPing:
+				r.Err = f.C.Ping(quit)
+			}
+		}()
+		r.Ret = w.Steps
+		r.RetTime = s.Now()
+		w.Ev("api", r.Idx, "%s %s #%d -> %s", name, rkNames[r.Kind], r.Idx, shortErr(r.Err))
+	}
+}
+
+// reqWire links request packets on the wire to their ledger entries.
+func (f *Flow) reqWire(c *Conn, p *WirePkt) {
+	var r *Req
+	switch p.Type {
+	case PUBLISH:
+		if p.QoS == 0 {
+			r = f.reqByMarker[p.Topic]
+		}
+	case SUBSCRIBE, UNSUBSCRIBE:
+		if len(p.Filters) > 0 {
+			r = f.reqByMarker[p.Filters[0]]
+		}
+	case PINGREQ:
+		f.PingReqWire = append(f.PingReqWire, f.W.Steps)
+	}
+	if r != nil && r.WireStep == 0 {
+		r.WireStep = f.W.Steps
+		r.WireConn = c.id
+		r.ID = p.ID
+	}
+}
+
+// quitActions lets the environment close quit channels of running requests.
+func (f *Flow) quitActions() []Action {
+	var acts []Action
+	for _, r := range f.Reqs {
+		r := r
+		if r.QuitK == quitLater && r.QuitAt == 0 && r.Ret == 0 && r.Invoke != 0 {
+			acts = append(acts, Action{Name: "close-quit", Weight: 2, Run: func() {
+				r.QuitAt = f.W.Steps
+				close(r.Quit)
+				f.W.Probe("quit_closed_during_request")
+				f.W.Ev("quit", r.Idx, "quit of request #%d closed", r.Idx)
+			}})
+		}
+	}
+	return acts
 }
